@@ -15,6 +15,7 @@ import (
 	"net/http/httptest"
 	"os"
 	"path/filepath"
+	"strings"
 	"sync"
 	"time"
 
@@ -240,22 +241,29 @@ func runC20Params(w *core.WorkerCtx, k int) *core.CaseResult {
 	res := &core.CaseResult{Sig: fmt.Sprintf("param-override-%d", k), Nontrivial: true}
 	var mu sync.Mutex
 	seen := map[string][]string{}
+	seenCollect := map[string][]string{}
 	sizes := map[string]int{"small": 3, "big": 9, "huge": 17}
 	srv := httptest.NewServer(http.HandlerFunc(func(rw http.ResponseWriter, rq *http.Request) {
 		id, mod := rq.URL.Query().Get("id"), rq.URL.Query().Get("module")
+		collect := rq.URL.Query()["collect[]"]
 		mu.Lock()
 		seen[id] = append(seen[id], mod)
+		seenCollect[id] = append(seenCollect[id], strings.Join(collect, ","))
 		mu.Unlock()
 		rw.Header().Set("Content-Type", "text/plain; version=0.0.4")
 		for i := 0; i < sizes[mod]; i++ {
 			fmt.Fprintf(rw, "probe_metric{i=\"%d\"} 1\n", i)
+		}
+		// every collector asked for contributes its own series (a multi-valued param selects what is exposed)
+		for _, c := range collect {
+			fmt.Fprintf(rw, "collector_%s_a 1\ncollector_%s_b 1\n", c, c)
 		}
 	}))
 	defer srv.Close()
 	addr := srv.Listener.Addr().(*net.TCPAddr).String()
 	// (a __param_ label that comes straight from discovery is overwritten by the configured value in Prometheus
 	// itself; only relabeling overrides a configured param - blackbox-exporter style)
-	cfg := "global:\n  scrape_interval: 15s\n  scrape_timeout: 10s\nscrape_configs:\n- job_name: jp\n  params:\n    module: [small]\n  relabel_configs:\n  - source_labels: [mod]\n    regex: (.+)\n    target_label: __param_module\n"
+	cfg := "global:\n  scrape_interval: 15s\n  scrape_timeout: 10s\nscrape_configs:\n- job_name: jp\n  params:\n    module: [small]\n    'collect[]': [cpu, mem, disk]\n  relabel_configs:\n  - source_labels: [mod]\n    regex: (.+)\n    target_label: __param_module\n"
 	p := newPipeline(1)
 	defer p.close()
 	if err := p.cm.ReloadFromRaw([]byte(cfg)); err != nil {
@@ -297,8 +305,8 @@ func runC20Params(w *core.WorkerCtx, k int) *core.CaseResult {
 			if st != nil && string(st.Health) == "up" {
 				res.Execs++
 				res.AddStat("probes_of_targets_with_and_without_param_override", 1)
-				if st.Series != int64(sizes[want[id]]) {
-					res.Violate("C20/estimate-wrong/param-override", "target %s (module %s) got the estimate %d; the exposition for its own params has %d samples", id, want[id], st.Series, sizes[want[id]])
+				if st.Series != int64(sizes[want[id]]+6) {
+					res.Violate("C20/estimate-wrong/param-override", "target %s (module %s, collect[] = cpu, mem, disk) got the estimate %d; the exposition for its own params has %d samples", id, want[id], st.Series, sizes[want[id]]+6)
 				}
 				break
 			}
@@ -318,8 +326,15 @@ func runC20Params(w *core.WorkerCtx, k int) *core.CaseResult {
 			}
 		}
 	}
+	for id, cs := range seenCollect {
+		for _, c := range cs {
+			if c != "cpu,mem,disk" {
+				res.Violate("C20/probe-with-foreign-params", "target %s was probed with collect[]=%q; the job's configuration says [cpu mem disk]", id, c)
+			}
+		}
+	}
 	if len(res.Viol) > 0 {
-		res.Witness = map[string]interface{}{"targets": ts, "requests_seen": seen}
+		res.Witness = map[string]interface{}{"targets": ts, "requests_seen": seen, "collect_seen": seenCollect}
 	}
 	return res
 }
